@@ -232,9 +232,47 @@ class Sh:
             if self.res["counters"].get("worker_crashes", 0) > CRASH_BUDGET: return
 
 
+    def cli(self):
+        """the bloc command's own readers (file and stdin): long physical lines, CRLF, vs the library's whole-line delivery"""
+        import subprocess, tempfile, shutil, os
+        r = self.rnd
+        bdir = build("asan"); blocbin = os.path.join(bdir, "apps", "bloc")
+        env = dict(os.environ); env["ASAN_OPTIONS"] = ASAN_OPTS; env["UBSAN_OPTIONS"] = UBSAN_OPTS; env["LD_LIBRARY_PATH"] = os.path.join(bdir, "libonly")
+        work = tempfile.mkdtemp(prefix="c13cli_")
+        try:
+            n = 14 if self.desc["tier"] == "quick" else 200
+            for it in range(n):
+                # many short statements: their one-line layout is far longer than the 1023-byte read of the file reader
+                k = r.randint(120, 400)
+                stm = ["print %d;" % (i * 7 + it) if r.random() < 0.7 else 'x%d = "s%d"; print x%d;' % (i, i, i) for i in range(k)]
+                pad = " " * r.choice([0, 1, 2, 3, 5, 11, 17, 1000, 1021, 1022, 1023, 1024])
+                layouts = {"multi": "\n".join(stm) + "\n", "oneline": pad + " ".join(stm) + "\n", "oneline-noeol": pad + " ".join(stm), "crlf": "\r\n".join(stm) + "\r\n",
+                           "twolines": pad + " ".join(stm[:k // 2]) + "\n" + " ".join(stm[k // 2:]) + "\n"}
+                ref = self.probe.case(["new A 0", "parse A P %s" % hx(layouts["multi"].encode()), "run A P 100000"])
+                if ref.crashed or not ref.replies[1].startswith("ok"): continue
+                want = unhx(rfields(ref.replies[2])[2].get("out", "-"))
+                for lname, text in layouts.items():
+                    fn = os.path.join(work, "p.bloc"); open(fn, "wb").write(text.encode())
+                    for mode in ("file", "stdin"):
+                        cmd = [blocbin, fn] if mode == "file" else [blocbin, "-"]
+                        try:
+                            p = subprocess.run(cmd, input=text.encode() if mode == "stdin" else b"", stdout=subprocess.PIPE, stderr=subprocess.PIPE, env=env, cwd=work, timeout=60)
+                        except subprocess.TimeoutExpired:
+                            self.res["inconclusive"] += 1; continue
+                        self.res["evaluations"] += 1; bump(self.res, "cli_runs")
+                        if p.stdout != want or p.returncode != 0:
+                            self.viol("cli|%s|%s" % (mode, lname), "bloc %s with the %s layout (%d statements, %d bytes of padding): exit %d, output differs from the library's (%d vs %d bytes); stderr: %s"
+                                      % (mode, lname, k, len(pad), p.returncode, len(p.stdout), len(want), p.stderr.decode("latin-1")[:120]), {"cmd": cmd, "source": text[:3000], "ops": []}); break
+                        else:
+                            self.res["nontrivial"].add(case_hash(["cli", mode, lname, text]))
+        finally:
+            shutil.rmtree(work, ignore_errors=True)
+
+
 def plan(tier, seed):
     sh = [{"kind": "splits", "k": k, "n": 8, "seed": seed, "tier": tier} for k in range(8 if tier == "quick" else 16)]
     sh += [{"kind": "boundary", "k": k, "n": 8, "seed": seed, "tier": tier} for k in range(8)]
+    sh += [{"kind": "cli", "k": k, "n": 2, "seed": seed, "tier": tier} for k in range(2)]
     return sh
 
 
